@@ -401,6 +401,18 @@ class Unit:
         # loops
         loops = rustscan.find_loops(m, bo + 1, be)
         info['loops'] = len(loops)
+        # loop contracts are keyed by loop ordinal: if the number of loops in the body differs from the number the
+        # contracts were written against (contracts/loop_counts.json), an ordinal may now name a different loop and
+        # its invariants would be checked against the wrong loop -- undecided, never a failed obligation
+        if c and (c.loops or getattr(c, 'loopbodies', None) or getattr(c, 'loopends', None)):
+            lc = getattr(self, '_loop_counts', None)
+            if lc is None:
+                try: lc = json.load(open(os.path.join(self.verif, 'contracts', 'loop_counts.json')))
+                except Exception: lc = {}
+                self._loop_counts = lc
+            info['loop_contract'] = True
+            if disp in lc and lc[disp] != len(loops):
+                raise LostAnchor('%s: the body has %d loops, its loop contracts were written for %d (loop structure changed)' % (disp, len(loops), lc[disp]))
         if c:
             for n, (blk, itname) in c.loops.items():
                 if n < 1 or n > len(loops):
@@ -417,13 +429,29 @@ class Unit:
                 for cl in blk.clauses():
                     self.report['clauses'].append({'fn': disp, 'vspec': os.path.relpath(blk.file, self.verif), 'first': cl['first'], 'last': cl['last'],
                                                    'text': cl['text'], 'tags': cl['tags'] or sorted(c.tags), 'section': cl['section'], 'loop': n, 'mode': mode})
+            for n, blk in getattr(c, 'loopbodies', {}).items():
+                if n < 1 or n > len(loops):
+                    raise LostAnchor('%s: contract names loop %d but the body has %d loops' % (disp, n, len(loops)))
+                kw, k, q = loops[n - 1]
+                edits.append((q + 1, 0, [('\n', ('gen', None, 0))] + [(t + '\n', ('vspec', blk.file, no)) for t, no in blk.lines]))
+            for n, blk in getattr(c, 'loopends', {}).items():
+                if n < 1 or n > len(loops):
+                    raise LostAnchor('%s: contract names loop %d but the body has %d loops' % (disp, n, len(loops)))
+                kw, k, q = loops[n - 1]
+                qc = rustscan.match_close(m, q)
+                edits.append((qc, 0, [('\n', ('gen', None, 0))] + [(t + '\n', ('vspec', blk.file, no)) for t, no in blk.lines]))
             for where, rx, blk in c.anchors:
                 # statement line matching regex (unique) inside the body
                 body = src[bo:be]
                 hits = [mo for mo in re.finditer(rx, body, flags=re.M)]
+                occ = getattr(blk, 'occurrence', None)
                 if where.endswith('all'):
                     if len(hits) < 1:
                         raise LostAnchor('%s: proof anchor /%s/ matched %d times' % (disp, rx, len(hits)))
+                elif occ is not None:
+                    if len(hits) < occ:
+                        raise LostAnchor('%s: proof anchor /%s/ matched %d times, occurrence %d wanted' % (disp, rx, len(hits), occ))
+                    hits = [hits[occ - 1]]
                 elif len(hits) != 1:
                     raise LostAnchor('%s: proof anchor /%s/ matched %d times' % (disp, rx, len(hits)))
                 for mo in hits:
